@@ -297,7 +297,7 @@ def observe(ob, ref, cs):
 # ---------------------------------------------------------------------------
 # BFS
 
-def bfs(universe, fee, depth, scale, deposit, ops, rate=0.0, on_state=None, max_states=None, first_ops=None):
+def bfs(universe, fee, depth, scale, deposit, ops, rate=0.0, on_state=None, max_states=None, first_ops=None, expand_violating=False):
     """Breadth-first search.  Returns dict with counters, violations (list of
     (property, history, message)) and, if on_state is given, calls
     on_state(snapshot_bytes, ref, hist, depth) for every distinct state."""
@@ -343,7 +343,8 @@ def bfs(universe, fee, depth, scale, deposit, ops, rate=0.0, on_state=None, max_
             if problems:
                 for pid, msg in problems:
                     viol.append((pid, hist + (op,), msg))
-                continue  # do not expand a violating state (avoids cascades)
+                if not expand_violating:
+                    continue  # do not expand a violating state (avoids cascades)
             outcomes.add(nlv)
             k = broker_key(b, cs)
             if k not in seen:
@@ -389,6 +390,8 @@ def collect_states(universe, fee, depth, scale, deposit, ops, rate=0.0):
     """Every distinct state reachable within `depth` operations, as
     (snapshot bytes, reference ledger, history)."""
     out = []
-    r = bfs(universe, fee, depth, scale, deposit, ops, rate=rate,
+    # states that C01/C05's own oracles object to are kept as start states all the same: the checks that start from them
+    # (C03, C12, C13) judge their own statement there, they must not go blind where another property is broken too
+    r = bfs(universe, fee, depth, scale, deposit, ops, rate=rate, expand_violating=True,
             on_state=lambda sb, ref, hist, d: out.append((sb, ref, hist)))
     return out, r
